@@ -21,7 +21,8 @@ from typing import Any, Dict, List, Optional, Sequence, Tuple
 
 from .. import clx, core, mmx, proto as P
 
-A, B, C, D = 1001, 1002, 1003, 1004
+# (D carries the largest id a definition file may give a message)
+A, B, C, D = 1001, 1002, 1003, 10000
 ALL = P.ALL_MESSAGE_TYPES
 NAMES = {A: "A", B: "B", C: "C", D: "D", ALL: "ALL"}
 _DEFS_DONE = False
